@@ -32,8 +32,11 @@ type Scenario struct {
 	Reqs  []Req
 	// Observe renders what is compared (default: status line, all headers sorted by fasthttp, body).
 	Observe func(resp *fasthttp.Response) string
-	// Pairs restricts the ordered pairs (nil = all ordered pairs of distinct kinds, plus each kind with itself when Self).
-	Self bool
+	// All ordered pairs of distinct kinds are run, plus each kind with itself when Self. Unordered runs only the
+	// pairs (i, j) with i <= j: the two threads are symmetric except for which one is spawned (and scheduled by
+	// default) first, which the preemption budget makes up for.
+	Self      bool
+	Unordered bool
 }
 
 func defaultObserve(resp *fasthttp.Response) string {
@@ -73,7 +76,7 @@ func Run(r *core.Run, prefix string, scenarios []Scenario, bound int) {
 		}
 		for i, qa := range sc.Reqs {
 			for j, qb := range sc.Reqs {
-				if i == j && !sc.Self {
+				if i == j && !sc.Self || sc.Unordered && j < i {
 					continue
 				}
 				qa, qb := qa, qb
@@ -112,7 +115,7 @@ func Run(r *core.Run, prefix string, scenarios []Scenario, bound int) {
 							if len(got[k]) > 5 && got[k][:5] == "PANIC" {
 								kind = "panic"
 							}
-							r.Violate(fmt.Sprintf("%s %s scenario=%s victim=%s other=%s", prefix, kind, sc.Name, names[k], names[1-k]),
+							r.Violate(fmt.Sprintf("%s %s scenario=%s victim=%s", prefix, kind, sc.Name, names[k]),
 								"under some interleaving a request received a response different from the one it receives when served alone on an identically prepared instance", cs, got[k], solo[names[k]])
 						}
 					}
